@@ -27,6 +27,15 @@ for pid, reason in sorted(claims['not_applicable'].items()):
     out.append("**%s — not applicable.** %s\n" % (pid, reason))
 out.append("\n## 13. Seeded changes (independent sub-agents) and what caught them\n")
 out.append("Each change below was written by a fresh sub-agent that saw only the text of\none property and a scratch worktree; it compiles, passes the 141 existing\ntests, and its own demonstration fails with it and passes without it (all\nconfirmed again by `tools/confirm_mutation.sh`). `tools/run_seeded.sh` applies\na change in a scratch worktree of `/repo` and runs a registered check against\nit (`VERIF_REPO`). \"caught\" = exit 1 with a `VIOLATION` line after native\nreplay.\n")
+metas = [json.load(open(d)) for d in sorted(glob.glob(V + '/seeded/*/meta.json'))]
+nq = sum(1 for m in metas if (m.get('detected_by') or {}).get('tier') == 'quick')
+nt = sum(1 for m in metas if (m.get('detected_by') or {}).get('tier') == 'thorough')
+out.append("**Result: %d of %d seeded changes are caught (%d by a quick-tier check, %d only by the thorough tier); %d are not caught.** The misses and why:\n" % (nq + nt, len(metas), nq, nt, len(metas) - nq - nt))
+for m in metas:
+    if not m.get('detected_by'):
+        out.append("* %s — %s" % (m['id'], m.get('not_caught_because', 'see notes.md')))
+out.append("")
+out.append("Several changes were first missed and led to changes in the machinery (each is described in section 11): the output parser that dropped checks inside generic functions (C07-m1), padded buffers hiding over-reads (C05-m1), out-of-bounds pointers hiding the read behind them (C05-m2, C05-m3), aliasing operands (C18-m1), mixed guard-page placements (C18-m2), the index1 > index2 long-needle family (C03-m3), 2-lane runs at 80 bytes (C02-m3), a cheap 258-byte pair-selection harness (C10-m2, C19-m1), Two-Way at needle 3 / haystack 8 and needle 4 / haystack 7 (C12-m1, C12-m3).\n")
 out.append("| id | site / effect (short) | needs | caught by (property check: harness) | tier |")
 out.append("|---|---|---|---|---|")
 for d in sorted(glob.glob(V + '/seeded/*/meta.json')):
